@@ -17,7 +17,7 @@
 (***************************************************************************)
 EXTENDS DeviceSys, Json
 
-CONSTANTS Variant, Mode, OctB, SemiB, ChanB, TapActions, ExitLen, NBase, AxSet, DumpEdges
+CONSTANTS Variant, Mode, OctB, SemiB, ChanB, TapActions, ExitLen, NBase, AxSet, HoldSet, DumpEdges
 
 StateActs == [KEY_F1 |-> "octave_down", KEY_F2 |-> "octave_up",
               KEY_F3 |-> "semitone_down", KEY_F4 |-> "semitone_up",
@@ -126,6 +126,19 @@ AKeyMapCfg ==
                                                        !.flip = TRUE, !.dzn = 0]]] >>,
      !.axinfo = [ABS_HAT0X |-> [min |-> -1, max |-> 1], ABS_Z |-> [min |-> 0, max |-> 8]]]
 
+\* C13 through an axis: a trigger that fires panic in the first mapping and is a controller in the second;
+\* cc-learning (which drops reports near the centre) and mapping keys; a note key to have something sounding
+AActCfg ==
+  [BaseCfg EXCEPT
+     !.actions = [KEY_F9 |-> "cc_learning", KEY_F12 |-> "mapping_up"],
+     !.maps = << [name |-> "M1", keys |-> [KEY_A |-> [n |-> 60, o |-> 0]],
+                  axes |-> [ABS_Z |-> [AxisDflt EXCEPT !.type = "action", !.act = "panic", !.dzn = 0],
+                            ABS_HAT0X |-> [AxisDflt EXCEPT !.type = "action", !.act = "octave_up", !.actNeg = "panic",
+                                                           !.bidi = TRUE, !.dzn = 0]]],
+                 [name |-> "M2", keys |-> [KEY_A |-> [n |-> 62, o |-> 0]],
+                  axes |-> [ABS_Z |-> [AxisDflt EXCEPT !.cc = 5, !.dzn = 0]]] >>,
+     !.axinfo = [ABS_Z |-> [min |-> 0, max |-> 4], ABS_HAT0X |-> [min |-> -1, max |-> 1]]]
+
 \* C06 (model level): one axis of each transmitting kind on small ranges
 AxisCfg ==
   [BaseCfg EXCEPT
@@ -141,6 +154,7 @@ MCCfg == CASE Variant = "keys" -> KeysCfg
            [] Variant = "bidi" -> BidiCfg
            [] Variant = "akey" -> AKeyCfg
            [] Variant = "akeymap" -> AKeyMapCfg
+           [] Variant = "aact" -> AActCfg
            [] Variant = "axis" -> AxisCfg
            [] Variant = "collide" -> CollideCfg
            [] Variant = "arith" -> ArithCfg
@@ -156,7 +170,9 @@ Taps(K) == {[ev |-> "tap", k |-> k] : k \in K}
 
 Inputs ==
   (IF Variant \in {"arith", "pairs"} THEN Taps(NoteKeysOf(MCCfg)) ELSE PressRelease(NoteKeysOf(MCCfg) \cup OtherKeys))
-  \cup (IF TapActions THEN Taps(DOMAIN MCCfg.actions) ELSE PressRelease(DOMAIN MCCfg.actions))
+  \* action keys are tapped, or - those in HoldSet, when TapActions is off - pressed and released separately
+  \cup (IF TapActions THEN Taps(DOMAIN MCCfg.actions)
+        ELSE PressRelease(DOMAIN MCCfg.actions \cap HoldSet) \cup Taps(DOMAIN MCCfg.actions \ HoldSet))
   \cup {[ev |-> "axis", a |-> a, raw |-> r] : a \in DOMAIN MCCfg.axinfo \cap AxSet, r \in -16..16}
   \cup {[ev |-> "disconnect"]}
 
